@@ -281,6 +281,7 @@ func c11Property(t *rapid.T) {
 	// when journals are pruned); for every proper prefix of them a copy of the state store with exactly that prefix
 	// on disk is produced by a run whose store drops the later writes
 	prune := h > 10
+	bfAfterIndex := false // some run issued an index write before the block file held the block
 	runWith := func(allowedState, allowedChain int) (string, int, int) {
 		d := sim.NewDir("c11-s")
 		cleanup = append(cleanup, d)
@@ -295,6 +296,15 @@ func c11Property(t *rapid.T) {
 		}
 		fs.Arm(allowedState)
 		fc.Arm(allowedChain)
+		// program order between the block file and the chain index: was the block already appended when the first
+		// durable write of the index store was issued? (then no crash leaves the index ahead of the block file)
+		fc.OnWrite = func(ord int) {
+			if ord == 1 {
+				if blocks, _ := n1.BF.Blocks(); blocks != h {
+					bfAfterIndex = true
+				}
+			}
+		}
 		// no read-back here: with later writes dropped the block may not be readable
 		if _, err := n1.ExecBlock(crashBlock.event(n1.Height() + 1)); err != nil {
 			f.fail("block %d not executed on a copy: %v", h, err)
@@ -332,6 +342,12 @@ func c11Property(t *rapid.T) {
 			// its index; such images are excluded by construction and counted
 			st.KnownFinding("KF-C11:torn-table-append", c.String())
 			st.Class("image:torn-table-append(skipped, known finding)", 1)
+			continue
+		}
+		if !bfAfterIndex && c.index > 0 && c.bfStep < 10 {
+			// in every run of this block the block file held the block before the first write of the chain index
+			// was issued: a process death cannot leave index writes without the complete block file
+			st.Class("image:ruled out by the observed write order (block file before chain index)", 1)
 			continue
 		}
 		img := sim.NewDir("c11-img")
@@ -433,21 +449,6 @@ func c11Property(t *rapid.T) {
 		}
 		cls := "image:" + c.class()
 		if problem != "" {
-			// known findings are matched by root cause: image shape AND the way it fails
-			kf := ""
-			switch {
-			case c.state == 0 && c.index == c.indexK && strings.Contains(problem, "node does not start") && strings.Contains(problem, "rollback to higher"):
-				kf = "KF-C11:state-behind-index"
-			case c.state > 0 && c.index == c.indexK && c.bfStep < 10 && strings.Contains(problem, "is not readable"):
-				kf = "KF-C11:index-ahead-of-blockstore"
-			case c.index == 0 && c.bfStep == 10 && strings.Contains(problem, "append out of order"):
-				kf = "KF-C11:blockstore-ahead-of-index"
-			}
-			if kf != "" && sim.KFOpen(kf) {
-				st.KnownFinding(kf, c.String()+": "+problem)
-				st.Case(nt, cls, "known-finding")
-				continue
-			}
 			unknown[c.class()] = fmt.Sprintf("crash image [%s] at height %d: %s", c.String(), h, problem)
 		}
 		st.Case(nt, cls)
